@@ -1035,3 +1035,114 @@ func (l lazyRW) Read(ctx context.Context) (*goat.Rpc, error) {
 func (l lazyRW) Write(ctx context.Context, r *goat.Rpc) error { return fmt.Errorf("read-only") }
 
 func TestC19Conc(t *testing.T) { checkProp(t, "C19", "concurrent-writers", genC19Conc, execC19Conc) }
+
+// ---- one envelope object written again and again, changed in place in between ------------------
+//
+// An application (a relay, a load generator, goat's own proxy) may keep an *Rpc, change its fields and write it again.
+// Each write must carry what the object holds at that moment.
+
+type C19ReuseStep struct {
+	Body   int `json:"body"`   // new length of Body.Data
+	Method int `json:"method"` // new length of Header.Method
+	KVs    int `json:"kvs"`    // new number of header metadata entries
+	Msg    int `json:"msg"`    // new length of Status.Message
+}
+
+type C19Reuse struct {
+	Transport string         `json:"transport"` // websocket | http
+	Steps     []C19ReuseStep `json:"steps"`
+}
+
+func genC19Reuse(t *rapid.T) C19Reuse {
+	c := C19Reuse{Transport: rapid.SampledFrom([]string{"websocket", "http"}).Draw(t, "transport")}
+	n := rapid.IntRange(2, 8).Draw(t, "n")
+	for i := 0; i < n; i++ {
+		c.Steps = append(c.Steps, C19ReuseStep{Body: rapid.SampledFrom([]int{0, 1, 100, 127, 128, 300, 20000}).Draw(t, "body"), Method: rapid.IntRange(0, 200).Draw(t, "method"),
+			KVs: rapid.IntRange(0, 3).Draw(t, "kvs"), Msg: rapid.SampledFrom([]int{0, 5, 127, 128, 1000}).Draw(t, "msg")})
+	}
+	return c
+}
+
+func execC19Reuse(t *testing.T, c C19Reuse) (v Verdict) {
+	ctx, cancel := context.WithTimeout(context.Background(), netBudget)
+	defer cancel()
+	var writeEnd, readEnd goat.RpcReadWriter
+	switch c.Transport {
+	case "websocket":
+		cl, sv, _, _, cleanup := wsPair(t)
+		defer cleanup()
+		writeEnd, readEnd = cl, sv
+	case "http":
+		connected := make(chan goat.RpcReadWriter, 8)
+		recv := goat.NewGoatOverHttp(func(id string, rw goat.RpcReadWriter) { connected <- rw }, func(src string) (string, error) { return "addr-of-" + src, nil })
+		defer recv.Cancel()
+		hs := httptest.NewServer(recv)
+		defer hs.Close()
+		send := goat.NewGoatOverHttp(func(string, goat.RpcReadWriter) {}, func(s string) (string, error) { return s, nil })
+		defer send.Cancel()
+		writeEnd = send.NewConnection(strings.TrimPrefix(hs.URL, "http://"))
+		readEnd = lazyRW{connected}
+	}
+	var mu sync.Mutex
+	var got []*goat.Rpc
+	rdone := make(chan struct{})
+	go func() {
+		defer close(rdone)
+		for range c.Steps {
+			x, err := readEnd.Read(ctx)
+			if err != nil {
+				return
+			}
+			mu.Lock()
+			got = append(got, x)
+			mu.Unlock()
+		}
+	}()
+	// the one object
+	r := &goat.Rpc{Header: &goatorepo.RequestHeader{Source: "peer", Destination: "d"}, Body: &goatorepo.Body{}, Status: &goatorepo.ResponseStatus{}}
+	var want []*goat.Rpc
+	for i, st := range c.Steps {
+		r.Id = uint64(i + 1)
+		r.Header.Method = strings.Repeat("m", st.Method)
+		r.Header.Headers = r.Header.Headers[:0]
+		for k := 0; k < st.KVs; k++ {
+			r.Header.Headers = append(r.Header.Headers, &goatorepo.KeyValue{Key: fmt.Sprintf("k%d", k), Value: strings.Repeat("v", i+k)})
+		}
+		r.Body.Data = bytes.Repeat([]byte{byte(i + 1)}, st.Body)
+		r.Status.Message = strings.Repeat("s", st.Msg)
+		want = append(want, proto.Clone(r).(*goat.Rpc))
+		if err := writeEnd.Write(ctx, r); err != nil {
+			if ctx.Err() != nil {
+				inconclusive(t, "%s: writes of a reused envelope exceeded %v", c.Transport, netBudget)
+			}
+			v.failf("%s: write #%d of an envelope object that had been written before and changed in place failed: %v", c.Transport, i, err)
+			break
+		}
+	}
+	if v.Fail == "" {
+		select {
+		case <-rdone:
+		case <-time.After(10 * time.Second):
+			v.failf("%s: %d envelopes were written without error but not all could be read", c.Transport, len(want))
+		}
+	}
+	cancel()
+	<-rdone
+	mu.Lock()
+	defer mu.Unlock()
+	if v.Fail == "" {
+		if len(got) != len(want) {
+			v.failf("%s: %d envelopes read, %d written", c.Transport, len(got), len(want))
+		}
+		for i := range got {
+			if i < len(want) && !proto.Equal(got[i], want[i]) {
+				v.failf("%s: write #%d of a reused envelope object arrived as %s, the object held %s when it was written", c.Transport, i, truncStr(got[i].String()), truncStr(want[i].String()))
+				break
+			}
+		}
+	}
+	v.Info = kit.CaseInfo{Labels: []string{"reuse." + c.Transport}, NonTrivial: true, Key: fmt.Sprintf("%+v", c), Sample: c}
+	return
+}
+
+func TestC19Reuse(t *testing.T) { checkProp(t, "C19", "object-reuse", genC19Reuse, execC19Reuse) }
